@@ -699,10 +699,9 @@ def rel_cases(tier, seed):
                 return 'all', m
             k = max(1, min(m, lim))
             return ','.join(map(str, sorted(r.sample(range(m), k)))), k
-        pairs = [('signed', 'fvs'), ('signed', 'iso'), ('fvs', 'iso')]
+        pairs = [('signed', 'fvs'), ('signed', 'iso'), ('fvs', 'iso'), ('signed', 'signed_tbb'), ('fvs', 'fvs_tbb'), ('iso', 'iso_tbb')]
         if tier == 'thorough':
-            pairs += [('fvs', 'signed'), ('iso', 'signed'), ('iso', 'fvs'), ('signed', 'signed_tbb'), ('fvs', 'fvs_tbb'), ('iso', 'iso_tbb'),
-                      ('signed_tbb', 'iso_tbb')]
+            pairs += [('fvs', 'signed'), ('iso', 'signed'), ('iso', 'fvs'), ('signed_tbb', 'iso_tbb')]
         for a, b in pairs:
             cases.append('rel=pair a=%s b=%s n=%d edges=%s sym=%s' % (a, b, n, es, sym_for(a + b)[0]))
         for algo in seqs:
@@ -805,7 +804,7 @@ def C08(tier, seed):
                 out.n_confirmed += 1
                 out.violation_lines.append('VIOLATION property=C08 replay=%s' % rp)
     bounds = {
-        'functions_encoded': ['parmcb::mcb_sva_signed', 'mcb_sva_fvs_trees', 'mcb_sva_iso_trees', '(thorough) *_tbb variants under the scheduler shim'],
+        'functions_encoded': ['parmcb::mcb_sva_signed', 'mcb_sva_fvs_trees', 'mcb_sva_iso_trees', 'the three *_tbb variants under the scheduler shim (default schedule)'],
         'bounds': 'two runs in one path over shared symbolic weights; graphs: every labelled 4-vertex graph with a cycle (m<=5 fully symbolic; K4 and '
                   'iso m=5 as 3-symbolic slices in quick), some forests, the empty graph; relations: variant pairs, seeded (thorough: all) vertex '
                   'permutations, reversed/seeded insertion orders, + isolated vertex, + pendant path, + bridge to a tree, disjoint union with a '
